@@ -370,7 +370,7 @@ func bkDamageMain(args []string) int {
 			cases = append(cases, dcase{file: f, kind: "truncate", off: n})
 		}
 		for off := 0; off < len(b); off++ {
-			if *sample > 0 && (off+*phase)%*sample != 0 && off > 8 && off < len(b)-8 {
+			if *sample > 0 && !strings.HasSuffix(f, ".json") && (off+*phase)%*sample != 0 && off > 8 && off < len(b)-8 {
 				continue
 			}
 			sp, tm := parseFrames(b)
@@ -385,6 +385,15 @@ func bkDamageMain(args []string) int {
 					continue
 				}
 				cases = append(cases, dcase{file: f, kind: "alter", off: off, pat: pat})
+			}
+			// a digit of a manifest altered to every other digit (pattern 10+d): a shard name turns into another
+			// shard's name, a recorded checksum or the format version into another number
+			if strings.HasSuffix(f, ".json") && b[off] >= '0' && b[off] <= '9' {
+				for dgt := 0; dgt <= 9; dgt++ {
+					if byte('0'+dgt) != b[off] {
+						cases = append(cases, dcase{file: f, kind: "alter", off: off, pat: 10 + dgt})
+					}
+				}
 			}
 		}
 	}
@@ -431,10 +440,12 @@ func bkDamageMain(args []string) int {
 			os.WriteFile(p, b[:c.off], 0644)
 		case "alter":
 			nb := append([]byte(nil), b...)
-			switch c.pat {
-			case 0:
+			switch {
+			case c.pat >= 10:
+				nb[c.off] = byte('0' + c.pat - 10)
+			case c.pat == 0:
 				nb[c.off] ^= 0x01
-			case 1:
+			case c.pat == 1:
 				nb[c.off] ^= 0x80
 			default:
 				if nb[c.off] == 0xff {
